@@ -152,7 +152,8 @@ def verify_functions(quals, timeout_ms, procs=None):
         unk = set(r['name'] for r in o.get('results', []) if r['status'] == 'unknown')
         if not unk or o.get('cached') or len(unk) > 4 or any(r['status'] == 'sat' for r in o.get('results', [])):
             continue
-        redo = RUN.verify_case(repo_root(), t[0], t[1], timeout_ms=20000, only_names=unk, retry=True)     # 20 s, then a 120 s portfolio
+        # 20 s, then a 120 s portfolio; the first obligation that stays undecided ends the generous budgets for this case
+        redo = RUN.verify_case(repo_root(), t[0], t[1], timeout_ms=20000, only_names=unk, retry=True, failed_retry_budget=1)
         # obligation names are not unique (one per path): results are matched by (name, occurrence)
         by_name = {}
         for r in redo.get('results', []):
@@ -343,11 +344,11 @@ def check_property(pid, tier='quick', seed=0):
         if rep.get('found'):
             violations.append(rpath)
             print('VIOLATION property=%s replay=%s' % (pid, rpath))
-            exit_code = max(exit_code, 1) if exit_code != 3 else 3
+            exit_code = 1 if exit_code != 3 else 3        # a violation outranks `undecided` (2)
         elif r['status'] == 'sat':
             violations.append(rpath)
             print('VIOLATION property=%s replay=%s no-failing-input-found' % (pid, rpath))
-            exit_code = max(exit_code, 1) if exit_code != 3 else 3
+            exit_code = 1 if exit_code != 3 else 3        # a violation outranks `undecided` (2)
         else:
             print('UNDECIDED property=%s obligation=%s (%s) details=%s' % (pid, r['name'], r.get('detail', '')[:200], rpath))
             if exit_code == 0:
